@@ -37,6 +37,21 @@ Theorem C10_node_refused_changes_nothing :
 Proof. exact nstep_refused. Qed.
 Print Assumptions C10_node_refused_changes_nothing.
 
+(** In particular the table of issued invoices: a SignInvoice for a payment hash that already has
+    an issued invoice leaves the table (and everything else) as it was, whether it is the same
+    invoice again (signed again) or another one (refused). *)
+Theorem C10_issued_invoice_is_never_replaced :
+  forall (s : nnode) (h a a' : N),
+    iss (nmem s) h = Some a' ->
+    fst (nstep s (IssueInvoice h a)) = s /\
+    (a <> a' -> snd (nstep s (IssueInvoice h a)) = false).
+Proof.
+  intros s h a a' Hi. cbn [nstep]. destruct (MAX_INV <=? iss_count (iss (nmem s))).
+  - split; [reflexivity | intros _; reflexivity].
+  - rewrite Hi. cbn [fst snd]. split; [reflexivity|]. intros Hne. apply N.eqb_neq. congruence.
+Qed.
+Print Assumptions C10_issued_invoice_is_never_replaced.
+
 (** Payment bookkeeping: a refused commitment update leaves invoices, payment records, ledger
     and channel contents as they were. *)
 Theorem C10_payments_refused_changes_nothing :
